@@ -358,8 +358,15 @@ type checkOutcome struct {
 	trouble      []string
 	early        bool
 	crashes      int
+	seeds        []uint64
 	shrinkDeaths int
 	wallByWorld  map[string]float64
+}
+
+func init() {
+	if d := os.Getenv("VERIF_REPLAY_DIR"); d != "" {
+		ReplayDir = d
+	}
 }
 
 func cmdCheck(args []string) int {
@@ -398,13 +405,20 @@ func cmdCheck(args []string) int {
 	start := time.Now()
 	oc := &checkOutcome{stats: NewStats(), wallByWorld: map[string]float64{}}
 	perWorldBudget := *budget / time.Duration(len(ws))
+	seeds := []uint64{seed}
+	if *tier == "thorough" {
+		seeds = []uint64{seed, seed + 1000003, seed + 2000003}
+	}
+	oc.seeds = seeds
 	for _, w := range ws {
 		t0 := time.Now()
 		total := w.Runs(*tier)
 		if *runsOverride > 0 {
 			total = *runsOverride
 		}
-		runWorld(w, *tier, seed, total, nw, perWorldBudget, oc)
+		for _, sd := range seeds {
+			runWorld(w, *tier, sd, total/len(seeds), nw, perWorldBudget/time.Duration(len(seeds)), oc)
+		}
 		oc.wallByWorld[w.Name()] = time.Since(t0).Seconds()
 	}
 	wall := time.Since(start).Seconds()
